@@ -9,6 +9,7 @@ import (
 	"github.com/hashicorp/consul/api"
 	"github.com/hashicorp/consul/internal/verifmc/cmdlib"
 	"github.com/hashicorp/consul/internal/verifmc/dump"
+	"github.com/hashicorp/consul/internal/verifmc/ep"
 	"github.com/hashicorp/consul/internal/verifmc/ev"
 	"github.com/hashicorp/consul/internal/verifmc/world"
 )
@@ -28,14 +29,17 @@ type prestate struct {
 }
 
 type family struct {
-	name   string
-	kind   matchKind
-	pres   []prestate
-	cur    func(w *world.World) uint64
-	cmd    func(c cmdlib.IdxClass) world.Op
+	name string
+	kind matchKind
+	pres []prestate
+	cur  func(w *world.World) uint64
+	cmd  func(c cmdlib.IdxClass) world.Op
 	// reported: nil means the command has no success flag (only applied<=>matched is decidable)
 	reported func(w *world.World, res string) (ok bool, known bool)
 	classes  []cmdlib.IdxClass
+	// sameContent: the command writes what some pre-states already hold; then "matched but nothing
+	// changed" is not a fault (there is nothing to change) and only the other clauses are judged
+	sameContent bool
 }
 
 func boolReported(w *world.World, res string) (bool, bool) {
@@ -189,9 +193,13 @@ func Run(c *ev.Ctx) {
 	all := cmdlib.AllIdx
 	fams := []family{
 		{name: "kv/cas", kind: upsert, pres: kvPres, cur: kvCur, reported: boolReported,
-			cmd: func(ic cmdlib.IdxClass) world.Op { return cmdlib.KVSpec{Verb: api.KVCAS, Key: "k", Val: "cas", Idx: ic, UseIdx: true}.Op() }},
+			cmd: func(ic cmdlib.IdxClass) world.Op {
+				return cmdlib.KVSpec{Verb: api.KVCAS, Key: "k", Val: "cas", Idx: ic, UseIdx: true}.Op()
+			}},
 		{name: "kv/delete-cas", kind: del, pres: kvPres, cur: kvCur, reported: boolReported,
-			cmd: func(ic cmdlib.IdxClass) world.Op { return cmdlib.KVSpec{Verb: api.KVDeleteCAS, Key: "k", Idx: ic, UseIdx: true}.Op() }},
+			cmd: func(ic cmdlib.IdxClass) world.Op {
+				return cmdlib.KVSpec{Verb: api.KVDeleteCAS, Key: "k", Idx: ic, UseIdx: true}.Op()
+			}},
 		{name: "txn/kv-cas", kind: upsert, pres: kvPres, cur: kvCur, reported: txnReported,
 			cmd: func(ic cmdlib.IdxClass) world.Op {
 				return cmdlib.Txn(cmdlib.KVSpec{Verb: api.KVCAS, Key: "k", Val: "cas", Idx: ic, UseIdx: true}.TxnOp())
@@ -213,17 +221,29 @@ func Run(c *ev.Ctx) {
 		{name: "txn/node-delete-cas", kind: del, pres: nodePres, cur: nodeCur, reported: txnReported,
 			cmd: func(ic cmdlib.IdxClass) world.Op { return cmdlib.Txn(cmdlib.TxnNode(api.NodeDeleteCAS, n1, ic)) }},
 		{name: "txn/service-cas", kind: upsert, pres: svcPres, cur: svcCur, reported: txnReported,
-			cmd: func(ic cmdlib.IdxClass) world.Op { return cmdlib.Txn(cmdlib.TxnService(api.ServiceCAS, "n1", web82, ic)) }},
+			cmd: func(ic cmdlib.IdxClass) world.Op {
+				return cmdlib.Txn(cmdlib.TxnService(api.ServiceCAS, "n1", web82, ic))
+			}},
 		{name: "txn/service-delete-cas", kind: del, pres: svcPres, cur: svcCur, reported: txnReported,
-			cmd: func(ic cmdlib.IdxClass) world.Op { return cmdlib.Txn(cmdlib.TxnService(api.ServiceDeleteCAS, "n1", web, ic)) }},
+			cmd: func(ic cmdlib.IdxClass) world.Op {
+				return cmdlib.Txn(cmdlib.TxnService(api.ServiceDeleteCAS, "n1", web, ic))
+			}},
 		{name: "txn/check-cas", kind: upsert, pres: ckPres, cur: ckCur, reported: txnReported,
 			cmd: func(ic cmdlib.IdxClass) world.Op { return cmdlib.Txn(cmdlib.TxnCheck(api.CheckCAS, "n1", ckC, ic)) }},
 		{name: "txn/check-delete-cas", kind: del, pres: ckPres, cur: ckCur, reported: txnReported,
-			cmd: func(ic cmdlib.IdxClass) world.Op { return cmdlib.Txn(cmdlib.TxnCheck(api.CheckDeleteCAS, "n1", ck, ic)) }},
+			cmd: func(ic cmdlib.IdxClass) world.Op {
+				return cmdlib.Txn(cmdlib.TxnCheck(api.CheckDeleteCAS, "n1", ck, ic))
+			}},
 		{name: "config-entry/upsert-cas", kind: upsert, pres: cePres, cur: ceCur, reported: boolReported,
 			cmd: func(ic cmdlib.IdxClass) world.Op { return sd("grpc").UpsertCAS(ic) }},
 		{name: "config-entry/upsert-with-status-cas", kind: upsert, pres: cePres, cur: ceCur, reported: boolReported,
 			cmd: func(ic cmdlib.IdxClass) world.Op { return sd("grpc").UpsertStatusCAS(ic) }},
+		{name: "config-entry/upsert-cas(same-content)", kind: upsert, pres: cePres, cur: ceCur, reported: boolReported, sameContent: true,
+			cmd: func(ic cmdlib.IdxClass) world.Op { return sd("tcp").UpsertCAS(ic) }},
+		{name: "kv/cas(same-content)", kind: upsert, pres: kvPres, cur: kvCur, reported: boolReported, sameContent: true,
+			cmd: func(ic cmdlib.IdxClass) world.Op {
+				return cmdlib.KVSpec{Verb: api.KVCAS, Key: "k", Val: "a", Idx: ic, UseIdx: true}.Op()
+			}},
 		{name: "config-entry/delete-cas", kind: del, pres: cePres, cur: ceCur, reported: boolReported,
 			cmd: func(ic cmdlib.IdxClass) world.Op { return sd("tcp").DeleteCAS(ic) }},
 		{name: "ca/set-config", kind: strict, pres: cfgPres, cur: cfgCur, reported: boolReported,
@@ -242,13 +262,40 @@ func Run(c *ev.Ctx) {
 	type caseRec struct{ Family, Pre, Index, Outcome string }
 	var samples []caseRec
 
+	// via: "" applies the command to the FSM (what raft does); "endpoint" sends the same request through the
+	// RPC endpoint method a client reaches (KVS.Apply, Txn.Apply, ConfigEntry.Apply/Delete,
+	// Operator.AutopilotSetConfiguration), so that what is judged is the reply the caller gets.
+	via, same := "", false
+	endpointCalls := 0
 	run := func(fam, pre string, setup []world.Op, cmd world.Op, m, specified bool, reported func(*world.World, string) (bool, bool), extra func(w *world.World, d0, d1 world.Dump, applied bool)) {
 		w := world.New()
 		w.ApplyAll(setup)
 		d0 := w.Dump(full)
-		res, ok := w.Apply(cmd)
-		if !ok {
-			return
+		var res string
+		if via == "" {
+			r, ok := w.Apply(cmd)
+			if !ok {
+				return
+			}
+			res = r
+		} else {
+			t, req, ok := cmd.Build(w)
+			if !ok {
+				return
+			}
+			srv, err := ep.Open(w)
+			if err != nil {
+				c.HarnessError("endpoint server: " + err.Error())
+				return
+			}
+			r, mapped := srv.Call(t, req)
+			srv.Close()
+			if !mapped {
+				return
+			}
+			endpointCalls++
+			res, w.LastRaw = r.Norm, r.Raw
+			fam += ":via-rpc-endpoint"
 		}
 		evals++
 		d1 := w.Dump(full)
@@ -269,7 +316,7 @@ func Run(c *ev.Ctx) {
 			samples = append(samples, caseRec{fam, pre, cmd.Name, outcome + " result=" + res})
 		}
 		if specified {
-			if m && !applied {
+			if m && !applied && !same {
 				c.Violate(sig("matched-not-applied"), fmt.Sprintf("expected index matched but nothing changed (result %s)\nhistory: %v", res, hist), replay)
 			}
 			if !m && applied {
@@ -278,7 +325,11 @@ func Run(c *ev.Ctx) {
 		} else if applied {
 			c.Violate(sig("vacuous-changed-state"), fmt.Sprintf("nothing to act on, yet state changed:\n%s\nhistory: %v", world.Diff(d0, d1, 6), hist), replay)
 		}
-		if known && specified && rep != applied {
+		if known && specified && same && m {
+			if !rep {
+				c.Violate(sig("matched-reported-false"), fmt.Sprintf("expected index matched but failure was reported (result %s)\nhistory: %v", res, hist), replay)
+			}
+		} else if known && specified && rep != applied {
 			c.Violate(sig(fmt.Sprintf("reported-%v-applied-%v", rep, applied)), fmt.Sprintf("reported success=%v but applied=%v (result %s)\nhistory: %v", rep, applied, res, hist), replay)
 		}
 		if known && !specified && !applied && false {
@@ -289,25 +340,29 @@ func Run(c *ev.Ctx) {
 		}
 	}
 
-	for _, f := range fams {
-		cls := f.classes
-		if cls == nil {
-			cls = all
-		}
-		for _, p := range f.pres {
-			for _, ic := range cls {
-				w := world.New()
-				w.ApplyAll(p.ops)
-				cur := f.cur(w)
-				sup, ok := cmdlib.PickIdx(w, ic, cur)
-				if !ok {
-					continue
+	for _, via = range []string{"", "endpoint"} {
+		for _, f := range fams {
+			same = f.sameContent
+			cls := f.classes
+			if cls == nil {
+				cls = all
+			}
+			for _, p := range f.pres {
+				for _, ic := range cls {
+					w := world.New()
+					w.ApplyAll(p.ops)
+					cur := f.cur(w)
+					sup, ok := cmdlib.PickIdx(w, ic, cur)
+					if !ok {
+						continue
+					}
+					m, spec := matched(f.kind, cur, sup)
+					run(f.name, p.name+"/idx="+ic.String(), p.ops, f.cmd(ic), m, spec, f.reported, nil)
 				}
-				m, spec := matched(f.kind, cur, sup)
-				run(f.name, p.name+"/idx="+ic.String(), p.ops, f.cmd(ic), m, spec, f.reported, nil)
 			}
 		}
 	}
+	via, same = "", false
 
 	// composite: CA roots + config in one command — all parts or none
 	for _, rp := range rootsPres {
@@ -380,7 +435,8 @@ func Run(c *ev.Ctx) {
 	c.Set("evaluations", evals)
 	c.Set("distinct_nontrivial", len(nontrivial))
 	c.Set("families", len(fams)+2)
-	c.Set("rule", "command family x pre-state {absent, present, modified, re-created, deleted} x supplied index {0, current, previous(stale), future}; for composites the cross product for both parts. A case is counted distinct by (family, pre-state+index class, matched/applied/reported outcome).")
+	c.Set("rpc_endpoint_calls", endpointCalls)
+	c.Set("rule", "command family x pre-state {absent, present, modified, re-created, deleted} x supplied index {0, current, previous(stale), future}; for composites the cross product for both parts. Every family whose command a client sends through KVS.Apply, Txn.Apply, ConfigEntry.Apply/Delete or Operator.AutopilotSetConfiguration is run twice: as the raft command on the FSM, and through that RPC endpoint method on a Server value over the same state (the reply the caller gets is what is judged). A case is counted distinct by (family, pre-state+index class, matched/applied/reported outcome).")
 	for _, s := range samples {
 		c.Sample(s)
 	}
